@@ -8,3 +8,7 @@ pub fn verif_binary_search(s: &Vec<usize>, x: &usize) -> (r: Result<usize, usize
       Err(i) => i <= s@.len() && (forall|j: int| 0 <= j < i ==> s@[j] < *x) && (forall|j: int| i <= j < s@.len() ==> s@[j] > *x),
     },
 { s.binary_search(x) }
+
+/// R10: laythe_vm::compiler::Compiler projected to what emit_byte / write_instruction touch
+/// (`line_offsets` is `&'a LineOffsets` in the real struct: A-ref)
+pub struct Compiler { pub line_offsets: LineOffsets, pub chunk: ChunkBuilder }
